@@ -268,3 +268,32 @@ def failure_ks(env, model, **cfg):
     r, model_ = smt.prove(z3.Implies(hyp, z3.And(tot >= 1, tot <= N)))
     env.holds("C15", "KS bound lemma (z3, linear): 0 < e_j <= 1 implies 1 <= 1 + sum e_j <= N", r == "proved", "z3: %s %s" % (r, model_))
     env.assumptions.add("real-analysis axioms used by the KS bound: exp(u) in (0,1] for u <= 0; log increasing, log 1 = 0")
+
+
+@job("c15.wingbox_rotation", ("C15",), cfgs=[dict(ny=2, cs=(3, 5, -4, 5)), dict(ny=2, cs=(3, 5, 4, 5)), dict(ny=2, cs=(12, 13, 5, 13), _tier=T)], ranges=R, cost=30)
+def wingbox_rotation(env, ny, cs):
+    """frame indifference of the wingbox stress recovery for a spar lying in a horizontal plane: turning the structure and its
+    displacement field together about the vertical axis (exact rational rotation, here by more than 45 degrees / less than 45
+    degrees) leaves the four stress combinations unchanged - the recovery uses the local axes the section properties are
+    defined in (element axis, vertical, their cross product) for every sweep"""
+    from .c10 import matmul
+    s, h = _vm(env, dict(nx=2, ny=ny, symmetry=True, side="left"), "wingbox")
+    ins = dict(h.inputs())
+    # the spar runs in the +y direction with a sweep of atan(1/5) before and more than 45 degrees after the turn (the local
+    # vertical axis of the recovery points the same way in both positions: the recovery's sign convention follows the sign
+    # of the spanwise component of the element axis, which the turn preserves here)
+    P0 = np.array(ins["nodes"], dtype=object if env.sym else float)[0]
+    w = env.var("w", (ny - 1,))
+    rows = [P0 * np.array([1, 1, 0])]
+    for e in range(ny - 1):
+        rows.append(rows[-1] + w[e] * w[e] * np.array([env.frac(1, 5), env.frac(1), 0 * env.frac(1)], dtype=object if env.sym else float))
+    nodes = np.array(rows, dtype=object if env.sym else float)
+    ins["nodes"] = nodes
+    c, s_ = env.frac(cs[0], cs[1]), env.frac(cs[2], cs[3])
+    Rz = np.array([[c, -s_, 0 * c], [s_, c, 0 * c], [0 * c, 0 * c, 1 + 0 * c]], dtype=object if env.sym else float)
+    rot = lambda v: matmul(env, np.asarray(v, dtype=object if env.sym else float).reshape(-1, 3), Rz.T).reshape(np.shape(v))
+    vm1 = h.compute(ins)["vonmises"]
+    ins2 = dict(ins, nodes=rot(nodes), disp=rot(ins["disp"]))
+    h2 = env.comp("vm.rot", h.factory)
+    vm2 = h2.compute(ins2)["vonmises"]
+    env.eq("C15", "wingbox von Mises stresses are unchanged when spar and displacements are turned about the vertical axis", vm2, vm1)
